@@ -1965,7 +1965,18 @@ class unyt_array(np.ndarray):
                             "cannot be multiplied, divided, subtracted or "
                             "added with data that has different units."
                         )
-                    inp1 = np.asarray(inp1, dtype=new_dtype) * conv
+                    if (
+                        unit_operator is _preserve_units
+                        and u0.dimensions is temperature
+                        and u0.base_offset == 0.0
+                        and u1.base_offset != 0.0
+                    ):
+                        # temperature difference + temperature point: the result
+                        # is labelled with u1 (see _preserve_units), so it is the
+                        # difference that must be expressed in u1's degrees
+                        inp0 = np.asarray(inp0) * (u0.base_value / u1.base_value)
+                    else:
+                        inp1 = np.asarray(inp1, dtype=new_dtype) * conv
             # get the unit of the result
             mul, unit = unit_operator(u0, u1)
             # actually evaluate the ufunc
